@@ -31,6 +31,12 @@ func (g *genCtx) varProgram() (ProgSpec, []string) {
 		return s
 	}
 	src := "%" + v
+	if vi := indexOf(g.vname, v); vi >= 0 && vi < len(g.c.Vars) && len(g.c.Vars[vi].Items) >= 15 && g.r.p(0.75) {
+		// a big collection: windows whose size relates to its size (most of it dropped, most of it kept, half)
+		l := len(g.c.Vars[vi].Items)
+		src += fmt.Sprintf(pick(g.r, []string{".skip(%d)", ".skip(%d).tail()", ".take(%d)", ".take(%d).skip(%[2]d)", ".tail().skip(%d)", ".skip(%d).take(3)", ".take(%d).tail()", ".skip(%[2]d).skip(%[1]d)"}),
+			pick(g.r, []int{l - 1, l - 2, l * 3 / 4, l/2 + 1, l / 2, l / 4, 1}), pick(g.r, []int{l / 3, l / 2, 2}))
+	}
 	for i, n := 0, g.r.n(4); i < n; i++ {
 		src += fill(pick(g.r, c03Chain))
 	}
@@ -181,4 +187,13 @@ func genC03(seed uint64, run int, tier string) *Case {
 	g.genTape(900)
 	_ = fmt.Sprint
 	return c
+}
+
+func indexOf(l []string, x string) int {
+	for i, s := range l {
+		if s == x {
+			return i
+		}
+	}
+	return -1
 }
